@@ -3,10 +3,12 @@
 import json, sys
 pid, wt = sys.argv[1], sys.argv[2]
 n = sys.argv[3] if len(sys.argv) > 3 else "2"
+out = sys.argv[4] if len(sys.argv) > 4 else pid
+avoid = sys.argv[5] if len(sys.argv) > 5 else ""
 p = [json.loads(l) for l in open('/verif/properties.jsonl') if json.loads(l)['id'] == pid][0]
 print(f"""You are helping to evaluate a verification effort for the Go library IBM/TSS (threshold signatures: DKG/signing orchestration over reliable Byzantine broadcast and membership sync, threshold BLS and Pointcheval-Sanders, TLS transport, tss-lib adapters).
 
-Your scratch copy of the repository is the git worktree at {wt} (work ONLY there and in /tmp/seed-out/{pid}/; never touch /repo or /verif, and do not read /verif). The sandbox has no network. For every go command use:
+Your scratch copy of the repository is the git worktree at {wt} (work ONLY there and in /tmp/seed-out/{out}/; never touch /repo or /verif, and do not read /verif). The sandbox has no network. For every go command use:
   export GOFLAGS=-mod=mod GOPROXY=off GOSUMDB=off GOTOOLCHAIN=local
 The repository has several Go modules (., mpc/bls, mpc/ps, mpc/binance/ecdsa, mpc/binance/eddsa, test); run `go test ./...` inside the module you change. (The `test` module links most packages from the module cache, not from the tree, so it is not affected by your edits.)
 
@@ -21,11 +23,11 @@ Here is one semantic property that the library is supposed to satisfy:
 
 TASK: produce {n} DIFFERENT, independent, realistic code changes ("seeded bugs") to the library's non-test source that each BREAK this property, while the code still compiles and the module's EXISTING unit tests (unedited) still pass. Think of plausible maintainer mistakes: an off-by-one, a dropped check, a reordered step, a wrong index/variable, a lock released too early, a missing cleanup, a comparison on the wrong field. Prefer changes that need something SPECIFIC to manifest (a particular interleaving or delivery order, a fault at a particular point, a multi-step sequence, an unusual input/configuration such as particular sizes or identifiers, or two cooperating sites that each look fine alone) over ones that any ordinary use exposes immediately. Each change must be small (a few lines), must only touch non-test .go files, and must be a genuine violation of the property as stated (not merely of some other behaviour).
 
-For EACH change i = 1..{n}:
+{("Earlier rounds already produced the following changes; produce DIFFERENT ideas at different sites or of a different nature: " + avoid + chr(10) + chr(10)) if avoid else ""}For EACH change i = 1..{n}:
  1. Start from a clean tree (git -C {wt} checkout -- . ; git -C {wt} clean -fdq).
  2. Make the change. Verify `go build ./...` and the existing `go test -count=1 ./...` of the affected module(s) pass (binance ecdsa tests are slow, ~1-2 min; that is fine).
- 3. Write a demonstration: a NEW Go test file (e.g. <pkg>/seeded_demo_test.go) or small program that FAILS with the change and PASSES without it. Verify both directions yourself (run it on the changed tree; then save your change with `git diff > /tmp/seed-out/{pid}/cur.diff`, `git checkout -- .`, run the demo again, and re-apply with `git apply`. NEVER use `git stash`: the stash is shared with other worktrees of this repository and other people are working in them). The demonstration should fail because the property is violated, deterministically or with high probability within a minute.
- 4. Save into /tmp/seed-out/{pid}/m<i>/ : patch.diff (output of `git diff` for the library change ONLY, without the demo file), the demo file(s), and notes.md saying: what the change is, why it violates the property, what specific condition is needed for it to manifest, exact commands you ran for the demo in both directions with their outcome, and confirmation that the existing tests pass.
+ 3. Write a demonstration: a NEW Go test file (e.g. <pkg>/seeded_demo_test.go) or small program that FAILS with the change and PASSES without it. Verify both directions yourself (run it on the changed tree; then save your change with `git diff > /tmp/seed-out/{out}/cur.diff`, `git checkout -- .`, run the demo again, and re-apply with `git apply`. NEVER use `git stash`: the stash is shared with other worktrees of this repository and other people are working in them). The demonstration should fail because the property is violated, deterministically or with high probability within a minute.
+ 4. Save into /tmp/seed-out/{out}/m<i>/ : patch.diff (output of `git diff` for the library change ONLY, without the demo file), the demo file(s), and notes.md saying: what the change is, why it violates the property, what specific condition is needed for it to manifest, exact commands you ran for the demo in both directions with their outcome, and confirmation that the existing tests pass.
  5. Restore the tree before the next change.
 
-When done, reply with a short summary listing each change (file, one-line description, what it needs to manifest, how the demo fails) and the paths under /tmp/seed-out/{pid}/. Do not leave build caches or large files in {wt}. If you cannot find a change that keeps the existing tests green for some idea, pick another idea rather than editing tests.""")
+When done, reply with a short summary listing each change (file, one-line description, what it needs to manifest, how the demo fails) and the paths under /tmp/seed-out/{out}/. Do not leave build caches or large files in {wt}. If you cannot find a change that keeps the existing tests green for some idea, pick another idea rather than editing tests.""")
